@@ -16,6 +16,18 @@ F2 = T.mk_flt(Fraction(2))
 HALF = T.mk_flt(Fraction(1, 2))
 
 
+V = T.sym('v')
+V_RANGE = (Fraction(0), None, False, True)
+
+
+def s2_from_variance(s1, v, n):
+    """S2 = (n-1) v + S1^2/n: statistics and intervals are decided on states parametrised by (S1, v, n) - a bijection
+    with (S1, S2) for n >= 2, and v >= 0 is Cauchy-Schwarz for real data - so that a guard on the sign of the computed
+    variance (a clamp of the one-pass formula at zero) is decidable on the domain."""
+    fn = T.op('i2f', n)
+    return T.op('add', T.op('mul', T.op('sub', fn, F1), v), T.op('div', T.op('mul', s1, s1), fn))
+
+
 class ConfModel:
     """Confidence: public enum with public variants (names are API)."""
 
